@@ -120,10 +120,19 @@ def index_pass(c, L):
     return z3.And(ev[0][1].z == z3.Select(CH, pos), ev[0][2].z == pos)      # the unit at position i gets index i
 
 
+def all_children_enumerated(c, sq, k, elem):
+    # the loop runs over ALL units of the table, pass k with (k, unit k)
+    ok = elem.k == 'tuple' and len(elem.items) == 2 and elem.items[0].k == 'int' and elem.items[1].k == 'any'
+    if not ok:
+        return z3.BoolVal(False), z3.BoolVal(False)
+    return (sq.extra['len'] == z3.Int('children.len'),
+            z3.And(elem.items[0].z == k, elem.items[1].z == z3.Select(CH, k)))
+
+
 contract(F, 'SynthDef._index_ugens', props=('C02', 'C01'), params={'self': 'self'},
          ensures=[('nothing-but-index-assignments',
                    lambda c: z3.BoolVal(not [e for e in c.trace if e[0] in ('store', 'append')]))],
-         loops={0: Loop(inv=index_pass, kinds={'i': 'int', 'ugen': 'any'})},
+         loops={0: Loop(inv=index_pass, over=all_children_enumerated, kinds={'i': 'int', 'ugen': 'any'})},
          fields={'SynthDef': SD}, hooks={'getattr': h_getattr, 'setitem': h_setitem, 'setattr': h_setattr},
          class_modules={'SynthDef': F}, native=False)
 
@@ -345,12 +354,19 @@ def ru_post(c):
     return ru_header(c)
 
 
+def whole_table(c, sq, k, elem):
+    # EVERY table entry is visited: the k-th unit iterated is the k-th entry of the table
+    ok = elem.k == 'ref' and elem.extra and elem.extra.get('tag') == str(z3.simplify(k)).replace(' ', '')
+    return sq.extra['len'] == z3.Int('children.len'), z3.BoolVal(bool(ok))
+
+
 contract(F, 'SynthDef._replace_ugen', props=('C01', 'C02'),
          params={'self': 'self', 'a': 'ref:SynthObject', 'b': 'ref:SynthObject'},
          raises={'Exception': lambda c: z3.BoolVal(False)},
          ensures=[('b-takes-the-table-slot,index,readers-and-ordering-constraints-of-a', ru_post)],
-         loops={0: Loop(inv=per_item, kinds={'item': (lambda eng, n: V('obj', oid='havoc')), 'i': 'int',
-                                             'input': 'any', 'aux': (lambda eng, n: V('obj', oid='havoc'))}),
+         loops={0: Loop(inv=per_item, over=whole_table,
+                        kinds={'item': (lambda eng, n: V('obj', oid='havoc')), 'i': 'int',
+                               'input': 'any', 'aux': (lambda eng, n: V('obj', oid='havoc'))}),
                 1: _InnerLoop(inv=inner_inv, kinds={'i': 'int', 'input': 'any',
                                                     'aux': (lambda eng, n: V('obj', oid='havoc'))},
                               havoc_fields=[('item', '_inputs')])},
